@@ -18,7 +18,7 @@ correspondence stream); `GatherSlack ≤ ArriveTimeout` is assumed. `rescheduleF
 entries (exact when `|fetching| ≤ HashLimit/32 + 1`; any scanned subset gives a deadline between
 the model's and `now + ArriveTimeout`, which is all the theorems and the judge use).
 
-`armOld` is the arming rule before the repair of DESIGN §7-D3 (negative witness only).
+`notifyOld` / `notifyPrev` use the two earlier arming rules (negative witnesses only).
 -/
 namespace Model.Fetcher
 
@@ -120,25 +120,35 @@ def announceAll (cfg : Cfg) (peer annTime now : Nat) (suspended : Bool) : List N
     else announceAll cfg peer annTime now suspended rest st2 acc
 
 def notify (cfg : Cfg) (now peer annTime : Nat) (accepted : List Nat) (suspended : Bool) (st : St) : St × List Request :=
-  let first := Gen.Fetcher.isFirst st.fetching.length
   let noAnn := Gen.Fetcher.noAnnounces st.announces.length
   if Gen.Fetcher.nothingInteresting accepted.length then (st, [])
   else
     let r := announceAll cfg peer annTime now suspended accepted st []
     let reqs := if Gen.Fetcher.sendRequest r.2.length then [⟨peer, r.2⟩] else []
-    if Gen.Fetcher.armTimer r.1.fetching.length r.1.announces.length first noAnn then (reschedule cfg now r.1, reqs)
+    if Gen.Fetcher.armTimer r.1.announces.length noAnn then (reschedule cfg now r.1, reqs)
     else (r.1, reqs)
 
-/-- the arming rule before the repair (DESIGN §7-D3) -/
-def armOld (nFetching : Nat) (first : Bool) : Bool := first && decide (nFetching ≠ 0)
-
-def notifyOld (cfg : Cfg) (now peer annTime : Nat) (accepted : List Nat) (suspended : Bool) (st : St) : St × List Request :=
-  let first := Gen.Fetcher.isFirst st.fetching.length
+/-- `processNotification` with an arbitrary arming rule `arm nFetching nAnnounces first noAnnounces`
+    (for the negative witnesses about the two earlier rules only) -/
+def notifyWith (arm : Nat → Nat → Bool → Bool → Bool) (cfg : Cfg) (now peer annTime : Nat) (accepted : List Nat)
+    (suspended : Bool) (st : St) : St × List Request :=
+  let first := decide (st.fetching.length = 0)
+  let noAnn := decide (st.announces.length = 0)
   if Gen.Fetcher.nothingInteresting accepted.length then (st, [])
   else
     let r := announceAll cfg peer annTime now suspended accepted st []
     let reqs := if Gen.Fetcher.sendRequest r.2.length then [⟨peer, r.2⟩] else []
-    if armOld r.1.fetching.length first then (reschedule cfg now r.1, reqs) else (r.1, reqs)
+    if arm r.1.fetching.length r.1.announces.length first noAnn then (reschedule cfg now r.1, reqs) else (r.1, reqs)
+
+/-- the original rule (before the repair of DESIGN §7-D3): `first && len(fetching) != 0` -/
+def armOld (nFetching _nAnnounces : Nat) (first _noAnn : Bool) : Bool := first && decide (nFetching ≠ 0)
+/-- the rule after the D3 repair, before the re-arm repair:
+    `(first && len(fetching) != 0) || (noAnnounces && announces.Len() != 0)` -/
+def armPrev (nFetching nAnnounces : Nat) (first noAnn : Bool) : Bool :=
+  (first && decide (nFetching ≠ 0)) || (noAnn && decide (nAnnounces ≠ 0))
+
+def notifyOld := notifyWith armOld
+def notifyPrev := notifyWith armPrev
 
 /-! ### the timer case -/
 
